@@ -1229,7 +1229,7 @@ MANIFEST = {
             "boo_2d.spatial_corr: for symbolic T the returned frame is (1/T) sum_n conditional_gr(frame n, psi[n], None, ppp, rdelta) (written loop invariant, "
             "init/step proved). boo_2d.time_corr returns time_correlation(trajectory, psi, dt, outputfile). Lemmas on the definition: |psi| <= 1 for both "
             "normalisations (induction over the neighbour count), |psi| = 1 when all bonds share exp(i l phi), rotation covariance psi' = exp(i l alpha) psi "
-            "(minimum-image vector rotates with positions and cell, incl. rint terms; l = 1..12).",
+            "(minimum-image vector rotates with positions and cell, incl. rint terms; l = 1..12). Extension round: time_average, spatial_corr and time_corr do not write the psi values held by the object (frame clause).",
     "note": "floats as reals (A1); read_neighbors / remove_pbc / utils.time_average / conditional_gr / time_correlation enter through their callee contracts; "
             "documented preconditions: consistent weights file, >= 1 neighbour per particle, sum |w| != 0, cn <= Nmax (otherwise the documented truncation); "
             "perfect-lattice values and rotated systems are also run on the real code as instances (reported separately, not counted as proofs)",
